@@ -404,6 +404,8 @@ SYS_QUICK = [
     dict(name='clock+sim', H=21600, dur=DAY, report='ALL', clock=True, controls=[dict(kind='clock', value=0, hi=DAY - 1), dict(kind='sim', value=1, hi=DAY)]),
 ]
 SYS_QUICK += [
+    # rule grid finer than the hydraulic grid with simple controls only: a redundant control (re-opens an open link) and a closing one inside one hydraulic step
+    dict(name='sim2-rulegrid', H=3600, R=1200, dur=3600, report='ALL', controls=[dict(kind='sim', value=1), dict(kind='sim', value=0)]),
     dict(name='rule-sim-ge', H=3600, R=1800, dur=2 * 3600, report='ALL', controls=[], rules=[dict(kind='sim', rel='ge', then=0)]),
     dict(name='rule-sim-lt-else', H=3600, R=900, dur=3600, report='ALL', controls=[], rules=[dict(kind='sim', rel='lt', then=0, **{'else': 1})]),
     dict(name='rule-clock-ge-else', H=21600, R=10800, dur=DAY, report='ALL', clock=True, controls=[], rules=[dict(kind='clock', rel='ge', then=0, hi=DAY - 1, **{'else': 1})]),
